@@ -3,8 +3,10 @@
 design level  : ErrPosMC.tla (window machine of non-seekable input + getContents of seekable input,
                 scaled constants, every read chunking / stream / fault position), ErrPosLemma.tla
                 (ReportAt on run-length encoded texts = getLineByOffset on the expanded contents).
-                TLC is expected to find D9 / D13 as violations of the property on the code-level model
-                and to prove the property for the repaired model (FIXRA, FIXCR).
+                The code-level model is FIXRA = TRUE (D9 repaired in /repo, commit 8c982d6), FIXCR = FALSE.
+                TLC must find D13 as a violation of the property on it, must find D9 on the PRE-repair
+                switch (FIXRA = FALSE: negative control of the model only) and must prove the property for
+                the fully repaired model (FIXRA, FIXCR).
 model -> code : ErrPosGen.tla enumerates query texts (every sequence of <= 3 / 5 symbols of {a, e-acute, hiragana,
                 e+combining, LF, CR, CRLF}; every alignment of multi-byte runes with the two excerpt cuts);
                 faults with an offending byte known by construction (every corruption position of
@@ -24,7 +26,7 @@ import re
 import vcheck as vc
 
 PROP = "C17"
-F_D9 = "F-D9-discarded-readahead"
+# D9 (discarded read-ahead) is fixed in /repo: a D9-class record is a plain mismatch -> VIOLATION now.
 F_D13 = "F-D13-lone-cr-line-count"
 F_TOK = "F-D14-stringstart-stale-token"
 F_STREAM = "F-D15-stream-token-offset"
@@ -309,7 +311,7 @@ def bigdoc_cases(r, n):
 
 
 def witness_cases():
-    """the D9 / D13 witnesses of DESIGN.md section 6 and their neighbours (fixed)"""
+    """the D9 (repaired: regression) / D13 witnesses and their neighbours (fixed list)"""
     out = []
     for trail in ["", "\n\n\n5\n6\n"]:
         for tr in ["pipe", "file", "redirect"]:
@@ -555,8 +557,9 @@ def model_check(rep, work, quick, seed):
 
 
 def judge_mc(rep, jobs):
-    """Holds-jobs must complete without error; the d9/d13 jobs must find the violation (the defects are
-    visible on the code-level model).  Anything else is tool trouble / spec drift (exit 2), never a verdict."""
+    """Holds-jobs must complete without error; the d13 job must find the violation on the code-level model
+    (open finding), the d9 job on the pre-repair switch FIXRA = FALSE (negative control: the model can still
+    tell the repaired code from the former one).  Anything else is tool trouble / spec drift (exit 2)."""
     mc = {}
     for name, res in sorted(jobs.items()):
         rep.add_tlc(res)
@@ -670,7 +673,7 @@ def case_from_replay(d):
     return c
 
 
-KNOWN = {"known_d9": F_D9, "known_d13": F_D13, "known_tok": F_TOK, "known_yaml": F_YAML, "known_stream": F_STREAM}
+KNOWN = {"known_d13": F_D13, "known_tok": F_TOK, "known_yaml": F_YAML, "known_stream": F_STREAM}
 
 
 def check_cases(rep, work, vh, gojq, cases, tag="t", timeout=900):
@@ -693,7 +696,10 @@ def check_cases(rep, work, vh, gojq, cases, tag="t", timeout=900):
             continue
         todo.append((c, rec))
         trs.append(trace_record(c, rec))
-    verdicts, stats = vc.validate_sharded(work, trs, "ErrPosTrace.tla", "ErrPosTrace.cfg", {}, tag=tag, timeout=timeout, per_shard_min=30)
+    cfg = "ErrPosTrace.cfg"
+    if os.environ.get("C17_FIXCR"):            # development: validate a tree that carries a repair of D13
+        cfg = cfg_variant(work, "ErrPosTrace.cfg", {"FIXCR": "TRUE"}, "trace_fixcr.cfg")
+    verdicts, stats = vc.validate_sharded(work, trs, "ErrPosTrace.tla", cfg, {}, tag=tag, timeout=timeout, per_shard_min=30)
     rep.add_tlc(stats)
     open_ids = {k["id"] for k in rep.known}
     bad = []
@@ -780,7 +786,7 @@ def run(tier, seed, replay_path):
                     counters[k] = counters.get(k, 0) + v
             jobs = mcf.result()
         judge_mc(rep, jobs)
-        # TLC's counterexample for the property on the code-level model, at the real constants
+        # TLC's counterexample for the property on the pre-repair model, at the real constants: regression case
         cex = d9_counterexample(jobs["d9"])
         if cex:
             ccs = [c for c in (concretise(cex, K) for K in (4100, 9000, 17000, 40000)) if c]
@@ -788,7 +794,8 @@ def run(tier, seed, replay_path):
             if ccs:
                 c2 = check_cases(rep, work, vh, gojq, ccs, tag="cex")
                 rep.cov["tlc_counterexample_on_real_binary"] = c2
-                rep.cov["tlc_counterexample_reproduced"] = c2.get("known_d9", 0) > 0
+                # D9 is repaired: the former witness must now be reported correctly (regression)
+                rep.cov["tlc_counterexample_regression_agrees"] = sum(c2.get(k, 0) for k in ("agree", "agree_window")) == len(ccs)
         rep.cov["verdicts"] = counters
         rep.cov["cases"] = len(cases)
         rep.cov["exhaustive"] = True
